@@ -3,7 +3,19 @@
 import json, os, glob
 HERE = os.path.dirname(os.path.abspath(__file__))
 BASE_OFF = "cd /repo && env -u CUTADAPT_VERIF /venv/bin/python -m pytest -ra -q -p no:cacheprovider --timeout=900 --continue-on-collection-errors"
+ALIGN_NOTE = ("Trusted: z3; Cython's parser as front end; symx' interpreter and its models of the C-API accessors (validated differentially on every run: "
+              "9000+ vectors incl. all character pairs x wildcard modes and random match_to calls through the compiled extension and the encoding); the harness-owned reference "
+              "(IUPAC sets, edit/Hamming distance, placement rules) in harness/align_common.py. The k-mer prefilter is stubbed to 'present' here (C07 decides it separately). "
+              "Rates: one representative double per step of r -> trunc(r*L).")
 CLAIMS = {
+ "C01": dict(engine="symx", design="3 C01",
+   technique="symbolic execution of adapters.py constructors/match_to (forking) and _align.pyx Aligner/comparers (state-merged) into SMT; z3 decides placement, errors == reference distance, tolerance for all adapters/reads within the shape bounds",
+   text="Bounded model checking of the real matching code: for each adapter class, wildcard/indel switch, rate representative and (adapter length, read length) shape the solver decides for ALL adapter strings over the IUPAC alphabet, all 7-bit ASCII reads and all minimum overlaps that a reported match has in-range coordinates, obeys the class's placement rule, covers the minimum overlap, reports exactly the reference edit/Hamming distance of the reported intervals and stays within rate x non-N aligned bases. Counterexamples are replayed on a build compiled from the same sources.",
+   note=ALIGN_NOTE),
+ "C02": dict(engine="symx", design="3 C02",
+   technique="same SMT encoding of the real aligner as C01; z3 decides, over all adapters/reads within the bounds, that no admissible (error-free / in-tolerance) occurrence exists whenever match_to returns None, and the leftmost/rightmost/exact-removal clauses whenever it returns a match",
+   text="Bounded model checking of completeness: on every path where the real match_to returns None the solver shows that none of the interval quadruples admitted by the placement rule is an error-free (all classes) or in-tolerance (classes named in the statement) occurrence; on match paths it shows the cut lies at/before the leftmost exact copy (3'), at/before its end (5'), at/after the rightmost copy's end (rightmost) and that exact anchored copies are removed exactly. An exception from match_to counts as a violation.",
+   note=ALIGN_NOTE),
  "C13": dict(engine="symx", design="3 C13",
    technique="symbolic execution of qualtrim.pyx (Cython parse tree -> merged SMT terms, z3) against a declarative BWA oracle; bounded in read length",
    text="Bounded model checking of the real kernels: for every read length up to the bound the solver decides, for all quality strings, cut-offs, bases and both quality bases, that quality_trim_index/nextseq_trim_index equal the declarative BWA definition; QualityTrimmer/NextseqQualityTrimmer slicing and trimmed_bases are executed from source on top. Not a proof: lengths beyond the bound are outside the claim.",
